@@ -13,7 +13,7 @@ ANCHORS = ["src/pylife/strength/failure_probability.py"]
 SHARDS = {"quick": 8, "thorough": 16}
 WATCHDOG = {"quick": 900, "thorough": 3000}
 REQUIRED_CLASSES = {t: ["p<1e-9", "1e-9<=p<1e-3", "1e-3<=p<=0.999", "p>0.999", "load_scatter<<strength_scatter",
-                        "load_scatter>>strength_scatter", "medians_orders_apart", "load_scatter_tiny_absolute"]
+                        "load_scatter>>strength_scatter", "medians_orders_apart", "load_scatter_tiny_absolute", "arbitrary_load:far_tail"]
                     for t in ("quick", "thorough")}
 REQUIRED_MONITORS = ["pf_norm_load==closed_form", "limit_load_scatter->0", "monotone_in_load_median", "monotone_in_strength_median",
                      "0<=p<=1", "pf_arbitrary_load_converges", "pf_simple_load==cdf", "fixed_probes==closed_form"]
@@ -120,3 +120,10 @@ def run_case(case, ctx):
             pdf = norm.pdf(x, loc=math.log10(L), scale=sL)
             errs.append(abs(float(fp.pf_arbitrary_load(x, pdf)) - exp) / exp)
         ctx.check("pf_arbitrary_load_converges", errs[-1] < 1e-3 and errs[-1] <= errs[0] + 1e-12, observed=errs)
+    elif 1e-12 <= exp <= 1e-6:
+        # the far tail: the density sampled out to 12 sigma (the points that matter carry a density of 1e-9 .. 1e-30 of the peak)
+        ctx.tag("arbitrary_load:far_tail")
+        x = np.linspace(math.log10(L) - 12 * sL, math.log10(L) + 12 * sL, 12001)
+        pdf = norm.pdf(x, loc=math.log10(L), scale=sL)
+        got_a = float(fp.pf_arbitrary_load(x, pdf))
+        ctx.check("pf_arbitrary_load_converges", abs(got_a - exp) <= 1e-3 * exp, observed=got_a, expected=exp, detail="far tail, 12001 points on +-12 sigma")
